@@ -64,6 +64,7 @@ class World(object):
         self.vals = {}
         self.ns = {}
         self.shims = []
+        self.step_shims = {}      # step id -> shims created by that step's arguments
         self.faults_noted = []
         self.log = []
         self.hook = None          # machine callback: hook(world, event, step, rec)
@@ -417,6 +418,17 @@ class World(object):
     def _apply_f1(self, step, fault):
         """F1/F4 live in the callback shim of the chosen slot."""
         slot = fault.get('slot', 0)
+        if 'shim_of' in fault:
+            # the callback was handed over in an earlier step (e.g. the right-hand side of an
+            # odefun interpolant): arm that shim relative to its invocations so far
+            shims = self.step_shims.get(fault['shim_of']) or []
+            if slot < len(shims):
+                sh = shims[slot]
+                sh.k = sh.calls + fault['k']
+                sh.act = fault.get('act', 'raise')
+                sh.nested = fault.get('step')
+                sh.fired = False
+            return
         cbs = [s for s in _walk_specs(step) if s.get('t') == 'cb']
         if slot < len(cbs):
             sh = {'k': fault['k'], 'act': fault.get('act', 'nested' if fault['kind'] == 'F4' else 'raise')}
@@ -452,6 +464,8 @@ class World(object):
             rec['exc'] = codec.enc_exc(e)
             self.log.append(rec)
             return rec, None
+        if self.shims:
+            self.step_shims[sid] = list(self.shims)
         res, exc, info = self.guarded(th, budget=self.budget, f2=f2, f3=f3)
         fired = info['fired']
         if fired is None and self.faults_noted:
@@ -500,13 +514,22 @@ class World(object):
             rec['exc'] = codec.enc_exc(e)
             self.log.append(rec)
             return rec, None
+        if self.shims:
+            self.step_shims[sid] = list(self.shims)
+        ext = None
+        if fault and 'shim_of' in fault:
+            ext = self.step_shims.get(fault['shim_of']) or []
+            before = [s.calls for s in ext]
         res, exc, info = self.guarded(th, budget=self.budget, collect=want_lines, lines=want_lines)
         if fault and not fault.get('resolved'):
             sites = None
             if want_lines:
                 sites = sorted((k[0], k[1], v[0], v[1]) for k, v in self.mon.sites.items())
+            cbc = [s.calls for s in self.shims]
+            if ext is not None:
+                cbc = [s.calls - b for s, b in zip(ext, before)]
             self.survey[sid] = {'starts': info['starts'], 'lines': info['lines'], 'sites': sites,
-                                'cb': [s.calls for s in self.shims]}
+                                'cb': cbc}
         self.stats['steps'] += 1
         self.stats['starts'] += info['starts']
         self.stats['lines'] += info['lines']
